@@ -172,7 +172,8 @@ Theorem midpoint_usplits t t' :
   forall k, orel split_qeq (find_split k (usplits t')) (find_split k (usplits (unroot t))).
 Proof.
   intros Hwf Hd Hi HND Hnn H key.
-  destruct (reroot_midpoint_scan _ _ H) as (q&lf&v&pA&cur&ea0&Hin&Hv&Hm&Hcur&_&He&Hres).
+  destruct (unroot_stage t Hwf Hd Hi) as [_ [D0 _]].
+  destruct (reroot_midpoint_scan _ _ D0 H) as (q&lf&v&pA&cur&ea0&Hin&Hv&Hm&Hcur&_&He&Hres).
   destruct (setting_facts t [] Hwf Hd Hi HND q lf v Hin Hv) as (W1&D1&L1&W2'&D2'&L2'&ND2'&_&_&SE).
   assert (ND1 : NoDup (leaves (unroot t))) by (now rewrite L1).
   pose proof Hin as Hin'. apply tip_paths_In in Hin' as [Hnq _].
@@ -254,6 +255,94 @@ Proof.
     + now rewrite qmax_idem.
 Qed.
 
+Theorem midpoint_edges_nonneg t t' :
+  wf t = true -> 2 <= degree t -> (rooted t = true -> root_has_inner_child t = true) ->
+  NoDup (leaves t) ->
+  (forall x, In x (bsplits (unroot t)) -> (0 <= elen (fst (fst x)))%Q) ->
+  reroot_midpoint t = Ok t' ->
+  forall z, In z (bsplits t') -> (0 <= elen (fst (fst z)))%Q.
+Proof.
+  intros Hwf Hd Hi HND Hnn H z Hz.
+  destruct (unroot_stage t Hwf Hd Hi) as [_ [D0 _]].
+  destruct (reroot_midpoint_scan _ _ D0 H) as (q&lf&v&pA&cur&ea0&Hin&Hv&Hm&Hcur&_&He&Hres).
+  destruct (setting_facts t [] Hwf Hd Hi HND q lf v Hin Hv) as (W1&D1&L1&W2'&D2'&L2'&ND2'&_&_&SE).
+  assert (ND1 : NoDup (leaves (unroot t))) by (now rewrite L1).
+  pose proof Hin as Hin'. apply tip_paths_In in Hin' as [Hnq _].
+  (* every branch of the view is not negative *)
+  assert (NN2 : forall e L b, In (e, L, b) (bsplits (tv_tree v)) -> (0 <= elen e)%Q).
+  { intros e L b Hin2.
+    destruct (PermR_In _ _ (bs_eq_Equivalence (leaves (unroot t))) _ _ SE _ Hin2) as [[[e' X'] b'] [Hy [E1 _]]].
+    simpl in E1. subst e'. exact (Hnn _ Hy). }
+  destruct (view_shape _ _ _ _ _ _ W1 D1 Hin Hv Hm)
+    as (n&c&sl&ea&l0&E2&Hj&Klf&Emlp&Ecur&Kmask&W2&D2&L2&P2).
+  assert (ea0 = ea).
+  { unfold edge_at in He. rewrite E2 in He. simpl uslots in He. rewrite Hj in He. congruence. }
+  subst ea0. rewrite E2 in *.
+  set (j := tv_slot v) in *. set (t2 := UNode n c sl) in *.
+  destruct (mlp_leaf _ _ _ Emlp) as [[K0 _]|[_ [HpA [b [HbA Kb]]]]]; [contradiction|].
+  destruct (mlp_spec _ _ _ Emlp) as [Hl0 _].
+  rewrite (path_edges_masked n c sl j pA b HbA) in Hl0. fold t2 in Hl0.
+  assert (Hb : node_at t2 pA = Some b) by (apply (node_at_masked n c sl j pA b HpA HbA)).
+  set (PE := path_edges t2 pA) in *.
+  assert (LPE : length PE = length pA) by (unfold PE; eapply path_edges_length; eauto).
+  assert (NS : is_prefix pA (tv_root v) = false).
+  { apply (not_stale (unroot t) q lf v pA b W1 D1 Hnq Hv HpA); [rewrite E2; exact Hb | exact Kb]. }
+  unfold mp_result in Hres. cbv zeta in Hres. rewrite E2, NS in Hres. fold j t2 PE in Hres.
+  set (m := length pA) in *.
+  set (half := qhalf cur) in *.
+  assert (Hhalf : (0 < half)%Q) by (unfold half, qhalf; lra).
+  set (pe := rev PE ++ [ea]) in *.
+  (* the branches of the path are not negative and add up to cur *)
+  assert (Hea : (0 <= elen ea)%Q).
+  { apply (NN2 ea (leaves lf) (isleaf lf)). apply (node_at_bsplits [] t2 t2 j ea lf eq_refl Hj). }
+  assert (NNpe : Forall (fun x => (0 <= x)%Q) (map elen pe)).
+  { unfold pe. rewrite map_app. apply Forall_app. split; [|constructor; [exact Hea|constructor]].
+    rewrite map_rev. apply Forall_rev. apply Forall_forall. intros x Hx.
+    apply in_map_iff in Hx as [e [<- He']].
+    pose proof (path_edges_in pA t2 b Hb) as F. rewrite Forall_forall in F.
+    destruct (F _ He') as (L & bb & Hin2). eapply NN2; eauto. }
+  assert (Htot : (qsum (map elen pe) == cur)%Q).
+  { unfold pe. rewrite map_app, qsum_app, map_rev, qsum_rev. simpl. rewrite Ecur, Hl0. ring. }
+  destruct (walk half (map elen pe) 0 0%Q) as [i len] eqn:Ew.
+  destruct (walk_stop half (map elen pe) NNpe 0 0%Q i len Ew Hhalf)
+    as (pre & x & post & Els & Ei & Hlo & Hhi & Hlen).
+  { rewrite Htot. unfold half, qhalf. lra. }
+  simpl in Ei.
+  assert (Ex : elen (nth (i - 1) pe e0) = x).
+  { rewrite <- (map_nth elen pe e0 (i - 1)), Els. replace (i - 1) with (length pre) by lia.
+    rewrite app_nth2 by lia. now rewrite Nat.sub_diag. }
+  set (ce := nth (i - 1) pe e0) in *.
+  set (cut := (len - half)%Q) in *.
+  assert (Hc0 : (0 <= cut)%Q) by (unfold cut; lra).
+  assert (Hc1 : (0 <= elen ce - cut)%Q) by (rewrite Ex; unfold cut; lra).
+  assert (Hi' : i <= m + 1).
+  { apply walk_le in Ew. rewrite map_length in Ew. unfold pe in Ew.
+    rewrite app_length, rev_length, LPE in Ew. simpl in Ew. fold m in Ew. lia. }
+  destruct (Nat.ltb (i - 1) m) eqn:Elt.
+  - apply Nat.ltb_lt in Elt.
+    set (d := m - (i - 1)) in *.
+    assert (Hd1 : d - 1 < length pA) by (fold m; unfold d; lia).
+    destruct (path_edges_nth pA t2 b (d - 1) Hb Hd1) as [P [ch [HP HK]]].
+    fold PE in HK.
+    assert (Ece : ce = nth (d - 1) PE e0).
+    { unfold ce, pe. rewrite app_nth1 by (rewrite rev_length; lia). rewrite rev_nth by lia.
+      f_equal. unfold d. lia. }
+    rewrite <- Ece in HK.
+    apply (cut_and_root_edges (fun e => (0 <= elen e)%Q) t2 (firstn (d - 1) pA) (nth (d - 1) pA 0) true
+              (mkE cut (esup ce) nilv []) (mkE (elen ce - cut) (esup ce) nilv []) P ce ch t'
+              W2 D2 HP HK Hres); auto.
+    intros [[e0' L0'] b0'] Hin0. cbn [fst]. eapply NN2; eauto.
+  - apply Nat.ltb_ge in Elt. assert (Ei' : i - 1 = m) by lia.
+    assert (Ece : ce = ea).
+    { unfold ce, pe. rewrite Ei', app_nth2 by (rewrite rev_length; lia).
+      rewrite rev_length, LPE. fold m. rewrite Nat.sub_diag. reflexivity. }
+    rewrite Ece in *.
+    apply (cut_and_root_edges (fun e => (0 <= elen e)%Q) t2 [] j false
+              (mkE (elen ea - cut) (esup ea) nilv []) (mkE cut (esup ea) nilv []) t2 ea lf t'
+              W2 D2 eq_refl Hj Hres); auto.
+    intros [[e0' L0'] b0'] Hin0. cbn [fst]. eapply NN2; eauto.
+Qed.
+
 Lemma len0_nonneg_eq e : (0 <= elen e)%Q -> (len0 e == elen e)%Q.
 Proof. intros H. unfold len0. apply Qle_bool_iff in H. now rewrite H. Qed.
 
@@ -265,7 +354,8 @@ Theorem midpoint_len0 t t' :
   dists_equiv (pairdists len0 t') (pairdists len0 t).
 Proof.
   intros Hwf Hd Hi HND Hnn H.
-  destruct (reroot_midpoint_scan _ _ H) as (q&lf&v&pA&cur&ea0&Hin&Hv&Hm&Hcur&_&He&Hres).
+  destruct (unroot_stage t Hwf Hd Hi) as [_ [D0 _]].
+  destruct (reroot_midpoint_scan _ _ D0 H) as (q&lf&v&pA&cur&ea0&Hin&Hv&Hm&Hcur&_&He&Hres).
   destruct (setting_facts t [] Hwf Hd Hi HND q lf v Hin Hv) as (W1&D1&L1&W2'&D2'&L2'&ND2'&_&_&SE).
   assert (ND1 : NoDup (leaves (unroot t))) by (now rewrite L1).
   pose proof Hin as Hin'. apply tip_paths_In in Hin' as [Hnq _].
